@@ -13,11 +13,13 @@ INSTS = {
     "opt_trk": ("optional", ["none", "trk"], ["trk", "int"], ["int", "trk"], 1),
     "opt_bool": ("optional", ["none", "bool"], ["bool", "int"], [], 1),
     "optref": ("optref", ["none", "ref"], ["int"], [], 1),
-    "var_it": ("variant", ["int", "trk"], ["int", "trk", "shrt", "bool"], [], 2),
+    "optref_p": ("optref", ["none", "ref"], ["int"], [], 1),      # optional<P&>, P a class type: operator=(U&&) itself rebinds
+    # MixTypes of a variant: foreign variant types (h3 = <int,bool,trk>, h4 = <int,bool,trk,mono>) for heterogeneous visits
+    "var_it": ("variant", ["int", "trk"], ["int", "trk", "shrt", "bool"], ["h3", "h4"], 2),
     "var_ib": ("variant", ["int", "bool"], ["int", "bool", "shrt"], [], 2),
     "var_bt": ("variant", ["bool", "trk"], ["int", "bool", "trk", "shrt"], [], 2),
-    "var_mit": ("variant", ["mono", "int", "trk"], ["int", "trk", "mono", "shrt"], [], 3),
-    "var_ibtm": ("variant", ["int", "bool", "trk", "mono"], ["int", "bool", "trk", "mono", "shrt", "long"], [], 3),
+    "var_mit": ("variant", ["mono", "int", "trk"], ["int", "trk", "mono", "shrt"], ["h3", "h4"], 3),
+    "var_ibtm": ("variant", ["int", "bool", "trk", "mono"], ["int", "bool", "trk", "mono", "shrt", "long"], ["h3"], 3),
     "exp_ii": ("expected", ["int", "int"], ["int", "shrt"], [], 4),
     "exp_ti": ("expected", ["trk", "int"], ["int", "trk"], [], 4),
     "exp_it": ("expected", ["int", "trk"], ["int", "trk"], [], 4),
